@@ -1,6 +1,7 @@
 import AtreeModel.Codec.Hyp
 import AtreeProofs.Codec.CmpSlab
 import AtreeProofs.Codec.RoundTripW
+import AtreeProofs.Codec.VDepthW
 /-
   The Bool-valued checkers of `AtreeModel/Codec/Hyp.lean` decide the Prop-valued hypotheses of the
   codec theorems: for every checker `xB v = true ↔ X v` (and `vneedB = vneed`, `vneedIB = vneedI`
@@ -429,6 +430,33 @@ theorem arrDataOKCB_iff (a : ArrData) : arrDataOKCB a = true ↔ ArrDataOKC a :=
     exact ⟨h1, h2, h3, h4, h5, h6, h7, h8, h9⟩
   · rintro ⟨h1, h2, h3, h4, h5, h6, h7, h8, h9⟩
     exact ⟨h1, h2, h3, h4, h5, h6, h7, h8, h9⟩
+
+theorem mapDataOKXB_iff (s : MapData) : mapDataOKXB s = true ↔ MapDataOKX s := by
+  simp only [mapDataOKXB, Bool.and_eq_true, decide_eq_true_eq, MEls.rtiB_iff, MEls.nodupKeysB_iff,
+    validNextB_iff, optAllB_iff validMapExtraB_iff]
+  constructor
+  · rintro ⟨h1, h2, h3, h4, h5, h6, h7⟩
+    exact ⟨h1, h2, h3, h4, h5, h6, h7⟩
+  · rintro ⟨h1, h2, h3, h4, h5, h6, h7⟩
+    exact ⟨h1, h2, h3, h4, h5, h6, h7⟩
+
+theorem arrDataOKXB_iff (a : ArrData) : arrDataOKXB a = true ↔ ArrDataOKX a := by
+  simp only [arrDataOKXB, Bool.and_eq_true, decide_eq_true_eq, rtiStsB_iff, nodupKeysStsB_iff,
+    not_isEmpty_iff, validNextB_iff, optAllB_iff validTyB_iff]
+  constructor
+  · rintro ⟨h1, h2, h3, h4, h5, h6, h7, h8, h9⟩
+    exact ⟨h1, h2, h3, h4, h5, h6, h7, h8, h9⟩
+  · rintro ⟨h1, h2, h3, h4, h5, h6, h7, h8, h9⟩
+    exact ⟨h1, h2, h3, h4, h5, h6, h7, h8, h9⟩
+
+theorem arrDataOKWXB_iff (a : ArrData) : arrDataOKWXB a = true ↔ ArrDataOKWX a := by
+  simp only [arrDataOKWXB, Bool.and_eq_true, decide_eq_true_eq, rtiStsB_iff, noInlStsB_iff, anyNotFlat_iff,
+    validNextB_iff, optAllB_iff validTyB_iff]
+  constructor
+  · rintro ⟨h1, h2, h3, h4, h5, h6, h7, h8⟩
+    exact ⟨h1, h2, h3, h4, h5, h6, h7, h8⟩
+  · rintro ⟨h1, h2, h3, h4, h5, h6, h7, h8⟩
+    exact ⟨h1, h2, h3, h4, h5, h6, h7, h8⟩
 
 theorem storableGOKB_iff (s : Stor) :
     storableGOKB s = true ↔ ∃ x, s = .some x ∧ x.RT ∧ x.noInl ∧ x.vneed + 1 ≤ maxNestedLevels := by
